@@ -16,6 +16,7 @@ package router
 
 //@ # ---- shared vocabulary
 //@ macro rawInv(s) = (scion.baseOK(s.PathMeta.SegLen[0], s.PathMeta.SegLen[1], s.PathMeta.SegLen[2], s.NumINF, s.NumHops) && s.PathMeta.CurrHF <= 63 && s.PathMeta.CurrINF <= 3 && len(s.Raw) == 4+s.NumINF*8+s.NumHops*12)
+//@ macro addrInv(p) = (len(p.scionLayer.RawSrcAddr) == 4*(1+int(p.scionLayer.SrcAddrType&3)) && len(p.scionLayer.RawDstAddr) == 4*(1+int(p.scionLayer.DstAddrType&3)))
 //@ macro procInv(p) = (p.d != nil && p.pkt != nil && p.path != nil && p.mac != nil && len(p.macInputBuffer) >= 16 && !sameArray(p.macInputBuffer, p.path.Raw) && rawInv(p.path))
 //@ macro pathPosOK(s) = (int(s.PathMeta.CurrHF) < s.NumHops && int(s.PathMeta.CurrINF) < s.NumINF && s.PathMeta.CurrINF == scion.segOf(s.PathMeta.CurrHF, s.PathMeta.SegLen[0], s.PathMeta.SegLen[1]))
 //@ macro hopPtr(p) = uint16(12+addrLen(p.scionLayer.DstAddrType, p.scionLayer.SrcAddrType)+4+8*p.path.NumINF+12*int(p.path.PathMeta.CurrHF))
@@ -173,8 +174,9 @@ package router
 //@   ensures result == pForward ==> p.pkt.slowPathRequest == old(p.pkt.slowPathRequest)
 
 //@ func (*scionPacketProcessor).validateSrcHost
-//@   props C05
-//@   requires p.pkt != nil && p.d != nil
+//@   props C05 C08
+//@   # decoder-established: the raw source address has the length its type announces
+//@   requires p.pkt != nil && p.d != nil && len(p.scionLayer.RawSrcAddr) == 4*(1+int(p.scionLayer.SrcAddrType&3))
 //@   modifies p.pkt.slowPathRequest
 //@   ensures result == pForward || (result == pSlowPath && p.pkt.slowPathRequest.spType == 4 && p.pkt.slowPathRequest.code == slayers.SCMPCodeInvalidSourceAddress)
 //@   ensures result == pForward ==> p.pkt.slowPathRequest == old(p.pkt.slowPathRequest)
@@ -297,7 +299,7 @@ package router
 //@ func (*scionPacketProcessor).process
 //@   props C01 C04 C05 C06 C15
 //@   maxpaths 20000
-//@   requires procInv(p) && p.pkt.Link != nil && !p.effectiveXover
+//@   requires procInv(p) && addrInv(p) && p.pkt.Link != nil && !p.effectiveXover
 //@   let s = p.path
 //@   let l0 = s.PathMeta.SegLen[0]
 //@   let l1 = s.PathMeta.SegLen[1]
